@@ -14,7 +14,7 @@ EXTENDS Naturals, Sequences, TLC, Json
 ByteSurfaces == {"key_decrypt", "pass_decrypt", "dec_chunks", "noise_decrypt", "aead_open", "file_format"}
 TextSurfaces == {"encoded_pk", "encoded_sk", "keyring"}
 ByteKinds == {"random", "zeros", "prefix", "prefix_then_random", "extend", "mutate", "lenfield"}
-TextKinds == {"b64", "ascii", "utf8", "prefix", "mutate", "lines", "random"}
+TextKinds == {"b64", "ascii", "utf8", "prefix", "mutate", "insert", "lines", "random"}   \* insert: one foreign character inside a valid text
 Shapes == (ByteSurfaces \X ByteKinds) \cup (TextSurfaces \X TextKinds)
 \* field boundaries of each surface (from WireFormat.tla): lengths around them are always tried
 Boundaries(s) ==
